@@ -13,7 +13,7 @@ Q = "markdown_it.rules_block.list.list_block"
 FUNCS = [Q]
 
 add(Contract("markdown_it.rules_block.list.markTightParagraphs", params={"state": "obj:StateBlock", "idx": "int"}, assume_only=True,
-             notes="sets the hidden flag of paragraph tokens of this list; touches nothing else (bounded stream monitor)"))
+             notes="call-site summary: touches nothing but hidden flags; the function itself is verified against exactly that under the record-list view of state.tokens (contracts/tight.py)"))
 
 TABLES_SAME = [(f"tables-{t}", f"forall(i, 0, len(state.bMarks), state.{t}[i] == old(state.{t}[i]))") for t in ("bMarks", "eMarks", "tShift", "sCount", "bsCount")]
 LENS = [("table-lens", "len(state.bMarks) == old(len(state.bMarks)) and len(state.eMarks) == len(state.bMarks) and len(state.tShift) == len(state.bMarks) "
